@@ -556,7 +556,9 @@ func classifyDeath(stderr string) (string, []string) {
 }
 
 // evalChild runs one case in a fresh child process.
-func (m *master) evalChild(c Case) Outcome {
+func (m *master) evalChild(c Case) Outcome { return m.evalChildTimeout(c, watchdogIdle()) }
+
+func (m *master) evalChildTimeout(c Case, limit time.Duration) Outcome {
 	cmd := exec.Command(m.exe, "runcase", m.d.ID())
 	cmd.Env = childEnv(m.d.Info().Race)
 	cmd.Stdin = bytes.NewReader(compactJSON(c))
@@ -570,7 +572,7 @@ func (m *master) evalChild(c Case) Outcome {
 	go func() { done <- cmd.Wait() }()
 	select {
 	case <-done:
-	case <-time.After(watchdogIdle()):
+	case <-time.After(limit):
 		cmd.Process.Kill()
 		<-done
 		return Outcome{Class: "harness-panic", Detail: "watchdog: child did not finish"}
@@ -590,10 +592,10 @@ func (m *master) evalChild(c Case) Outcome {
 // Eval runs a case the way its class requires: in a child process when the
 // run may kill the process or needs the race build, in-process otherwise.
 func (m *master) eval(c Case, class string) Outcome {
-	if m.d.Info().Race || strings.HasPrefix(class, "fatal") || class == "race" {
-		return m.evalChild(c)
+	if m.d.Info().InProcessShrink && !strings.HasPrefix(class, "fatal") {
+		return SafeRun(m.d, c)
 	}
-	return SafeRun(m.d, c)
+	return m.evalChildTimeout(c, 60*time.Second)
 }
 
 // shrink minimises a failing case, keeping a candidate only if the same
@@ -603,6 +605,9 @@ func (m *master) shrink(c Case, oc Outcome) (Case, Outcome, int) {
 	budget := 4000
 	if m.d.Info().Race || strings.HasPrefix(class, "fatal") || class == "race" {
 		budget = 300
+	}
+	if !m.d.Info().InProcessShrink {
+		// children inherit the driver's environment (CLI path, work dir)
 	}
 	// Confirm first (also yields culprits for crash cases that were only seen as a death).
 	first := m.eval(c, class)
